@@ -543,6 +543,11 @@ func checkInterest(val *Interest, context *InterestParsingContext) error {
 	if val.SignatureValue != nil && val.ApplicationParameters == nil {
 		return enc.ErrIncorrectDigest
 	}
+	if val.ApplicationParameters == nil && len(val.NameV) > 0 &&
+		val.NameV[len(val.NameV)-1].Typ == enc.TypeParametersSha256DigestComponent {
+		// A parameters digest without the parameters it is a digest of
+		return enc.ErrIncorrectDigest
+	}
 	if val.ApplicationParameters != nil {
 		// Check digest
 		name := val.NameV
